@@ -64,6 +64,7 @@ def enumerated(tier):
         for sc in (scs[4], scs[10], scs[5], scs[12]):
             yield from life.pair_fault_sweep(sc, PAIR_THOROUGH)
     yield from life.hello_trailer_sweep()
+    yield from life.slow_hello_disconnect_sweep()
     yield from life.stall_sweep([scs[4], scs[9]] if tier == "quick" else None)
     yield from life.sock_fault_sweep()
     yield from life.resolve_stage_sweep()
